@@ -14,6 +14,11 @@ type genOpts struct {
 	cycles    bool // allow cyclic composite references (malformed)
 	dense     bool // many rules / pairs / components
 	wrapDelta bool // GSUB 1.1 deltas that wrap around 65536
+	// blanks: 0 = at most one blank glyph (TrueType only, chance 1/3); 2 = many
+	// blank glyphs (nil *glyf.Glyph / empty charstring) in every role: any
+	// glyph is blank with chance 1/3 (glyph 0: 1/8), glyph 1 and the last glyph
+	// more often, and composites prefer blank components
+	blanks int
 }
 
 func perm(r *vlib.Rand, n int) []int {
@@ -49,6 +54,13 @@ func distinct(r *vlib.Rand, n, lo, hi int) []int {
 	return out
 }
 
+func minInt(a, b int) int {
+	if a < b {
+		return a
+	}
+	return b
+}
+
 func maxInt(a, b int) int {
 	if a > b {
 		return a
@@ -80,9 +92,28 @@ func genFont(r *vlib.Rand, o *genOpts) *Desc {
 			d.Mats = distinct(r, nfd, 0, 200)
 		}
 	}
-	nilGlyph := -1
-	if o.kind == "glyf" && n > 2 && r.Chance(1, 3) {
-		nilGlyph = r.Range(1, n-1)
+	blank := make([]bool, n)
+	if o.blanks == 0 {
+		if o.kind == "glyf" && n > 2 && r.Chance(1, 3) {
+			blank[r.Range(1, n-1)] = true
+		}
+	} else {
+		for i := range blank {
+			blank[i] = r.Chance(1, 3)
+		}
+		blank[0] = r.Chance(1, 8)
+		if n > 1 && r.Bool() {
+			blank[1] = true // the neighbour of .notdef
+		}
+		if n > 1 && r.Bool() {
+			blank[n-1] = true // the end of the glyph list
+		}
+	}
+	var blanks []int
+	for i, b := range blank {
+		if b {
+			blanks = append(blanks, i)
+		}
 	}
 	compChance := 3
 	if o.dense {
@@ -93,16 +124,22 @@ func genFont(r *vlib.Rand, o *genOpts) *Desc {
 		if i == 0 {
 			g.N, g.C = 0, 0
 		}
+		if blank[i] {
+			g.O = 0
+			if r.Chance(1, 4) {
+				g.W = 0 // zero-width blank
+			}
+		}
 		switch o.kind {
 		case "glyf":
 			g.C = 0
-			if i == nilGlyph {
-				g.O = 0
-			} else if r.Chance(1, compChance) {
+			if !blank[i] && r.Chance(1, compChance) {
 				k := r.Range(1, 4)
 				for j := 0; j < k; j++ {
 					c := someGlyph(r, o)
-					if c < n && !o.cycles && rank[c] >= rank[i] {
+					if len(blanks) > 0 && o.blanks != 0 && r.Chance(2, 5) {
+						c = blanks[r.Intn(len(blanks))] // a blank glyph has no components: no cycle
+					} else if c < n && !o.cycles && rank[c] >= rank[i] {
 						continue
 					}
 					g.Comps = append(g.Comps, c)
@@ -124,6 +161,7 @@ func genFont(r *vlib.Rand, o *genOpts) *Desc {
 			d.Glyphs[i].N = 0
 		}
 	}
+	distinctBlanks(r, d)
 
 	// character maps
 	type ck struct{ pid, eid, f int }
@@ -281,6 +319,24 @@ func genFont(r *vlib.Rand, o *genOpts) *Desc {
 	return d
 }
 
+// distinctBlanks makes the blank glyphs of the font pairwise different in
+// (width, name, CID): all of them have the same (empty) outline, so this is
+// what tells them apart - for the harness and for anybody else.  Equal widths
+// (space / nbspace) stay possible wherever names or CIDs differ.
+func distinctBlanks(r *vlib.Rand, d *Desc) {
+	seen := map[[3]int]bool{}
+	for i := range d.Glyphs {
+		g := &d.Glyphs[i]
+		if g.O != 0 {
+			continue
+		}
+		for seen[[3]int{g.W, g.N, g.C}] {
+			g.W = r.Intn(2001)
+		}
+		seen[[3]int{g.W, g.N, g.C}] = true
+	}
+}
+
 // genList returns a duplicate-free glyph list starting with 0.
 func genList(r *vlib.Rand, n int) []int {
 	p := perm(r, n)
@@ -331,11 +387,187 @@ func Gen(run *vlib.Run, seed uint64, tier string) {
 		if rr.Chance(1, 10) {
 			o.n = rr.Range(15, 60)
 		}
+		if rr.Chance(1, 3) {
+			o.blanks = 2
+		}
 		d := genFont(rr, o)
 		gl := genList(rr, o.n)
+		if rr.Chance(1, 4) {
+			// the same font as the library's reader returns it
+			if e, ok := ViaReader(d); ok {
+				d = e
+			}
+		}
 		one(run, "font", d, gl, genOrc(rr), "valid", "kind:"+o.kind)
 		if o.kind != "glyf" && rr.Chance(1, 3) {
 			one(run, "cffsub", d, gl, nil, "valid", "cffsub", "kind:"+o.kind)
+		}
+	}
+
+	// (vi) blank glyphs in every role.  TrueType: blank glyphs (nil
+	// *glyf.Glyph) as listed glyphs, as first / middle / last / only component,
+	// shared between composites, reachable only through nested composites,
+	// with USE_MY_METRICS, next to glyph 0 and at the end of the glyph list;
+	// every font both as built in memory and as the reader returns it after
+	// Write.  CFF: glyphs with empty charstrings, listed and not listed.
+	nbl := vlib.Count(tier, 45, 900)
+	for i := 0; i < nbl; i++ {
+		rr := r.Fork(fmt.Sprint("k", i))
+		d, lists, ll := blankFont(rr)
+		e, okE := ViaReader(d)
+		for j, gl := range lists {
+			if j >= 3 && !rr.Chance(1, 2) {
+				continue
+			}
+			one(run, "font", d, gl, genOrc(rr), "blank-glyphs", "kind:glyf", ll[j])
+			if okE {
+				one(run, "font", e, gl, genOrc(rr), "blank-glyphs", "kind:glyf", ll[j])
+			}
+		}
+	}
+	nbc := vlib.Count(tier, 60, 1200)
+	for i := 0; i < nbc; i++ {
+		rr := r.Fork(fmt.Sprint("kc", i))
+		o := &genOpts{kind: kinds[1+i%2], n: rr.Range(2, 12), blanks: 2, dense: rr.Bool()}
+		d := genFont(rr, o)
+		gl := genList(rr, o.n)
+		one(run, "font", d, gl, genOrc(rr), "blank-glyphs", "kind:"+o.kind)
+		if e, ok := ViaReader(d); ok {
+			one(run, "font", e, gl, genOrc(rr), "blank-glyphs", "kind:"+o.kind)
+			if rr.Bool() {
+				one(run, "cffsub", e, gl, nil, "blank-glyphs", "cffsub", "kind:"+o.kind)
+			}
+		}
+	}
+
+	// (vii) layout data the subsetter does not declare supported: GSUB 1.2,
+	// 2.1 and 3.1 subtables (SubsetGsub collects their rules and then panics
+	// "not implemented" when it rebuilds the table), among them the GSUB table
+	// of a subset (1.1 subtables come out as 1.2).  The oracle accepts a panic
+	// or a subset that satisfies every clause; the model must agree.
+	nu := vlib.Count(tier, 48, 720)
+	for i := 0; i < nu; i++ {
+		rr := r.Fork(fmt.Sprint("u", i))
+		o := &genOpts{kind: kinds[i%3], n: rr.Range(3, 10), blanks: 2 * rr.Intn(2)}
+		d := genFont(rr, o)
+		gl := genList(rr, o.n)
+		what := []string{"s2", "mult", "alt", "subset-of-subset"}[i%4]
+		if what == "subset-of-subset" {
+			d.NoGsub = false
+			d.Gsub = [][]GsubSub{{{Kind: "s1", Delta: 1, Cov: []int{0, 1}}}}
+			if rr.Bool() {
+				d.Gsub = append(d.Gsub, []GsubSub{{Kind: "lig", Sets: []LigSet{{First: 1, Ligs: []Lig{{In: []int{0}, Out: 2}}}}}})
+			}
+			res, err := runImpl("font", d, gl)
+			if err != nil || res.sub == nil {
+				continue
+			}
+			e := Project(res.sub)
+			if CaseLine("font", e, nil, nil) != func() string {
+				f, err := Build(e)
+				if err != nil {
+					return ""
+				}
+				return CaseLine("font", Project(f), nil, nil)
+			}() {
+				continue
+			}
+			gl2 := genList(rr, len(e.Glyphs))
+			one(run, "font", e, gl2, genOrc(rr), "unsupported", "gsub:1.2-from-a-subset", "kind:"+o.kind)
+			continue
+		}
+		st := GsubSub{Kind: what}
+		k := rr.Range(1, 3)
+		if k > o.n {
+			k = o.n
+		}
+		firsts := distinct(rr, k, 0, o.n-1)
+		sort.Ints(firsts)
+		for _, g := range firsts {
+			switch what {
+			case "s2":
+				st.S2 = append(st.S2, [2]int{g, rr.Intn(o.n)})
+			case "mult":
+				e := MultiEnt{G: g, Outs: []int{}}
+				for q := rr.Range(1, 3); q > 0; q-- {
+					e.Outs = append(e.Outs, rr.Intn(o.n))
+				}
+				st.Multi = append(st.Multi, e)
+			default:
+				e := MultiEnt{G: g, Outs: distinct(rr, rr.Range(1, minInt(3, o.n)), 0, o.n-1)}
+				st.Multi = append(st.Multi, e)
+			}
+		}
+		d.NoGsub = false
+		pos := rr.Intn(len(d.Gsub) + 1)
+		d.Gsub = append(d.Gsub[:pos:pos], append([][]GsubSub{{st}}, d.Gsub[pos:]...)...)
+		label := map[string]string{"s2": "gsub:1.2", "mult": "gsub:2.1", "alt": "gsub:3.1"}[what]
+		one(run, "font", d, gl, genOrc(rr), "unsupported", label, "kind:"+o.kind)
+	}
+
+	// (viii) character maps beyond formats 4 and 12 under Unicode keys:
+	// format 6 (decoded into a cmap.Format4, re-encoded as format 4) and the
+	// Macintosh key (1,0) with one-byte codes on both sides of 0x80 are
+	// handled like any other subtable and compared with the model; format 0
+	// is refused (panic), subtables the library cannot decode (formats 2, 8,
+	// 10, 13, 14) are left out of the subset (oracle only).
+	nc := vlib.Count(tier, 48, 600)
+	for i := 0; i < nc; i++ {
+		rr := r.Fork(fmt.Sprint("c", i))
+		o := &genOpts{kind: kinds[i%3], n: rr.Range(2, 12)}
+		d := genFont(rr, o)
+		gl := genList(rr, o.n)
+		// one-byte codes, on both sides of 0x80 (where Mac Roman and Unicode part)
+		ascii := func(fmtNo, pid, eid int) CMap {
+			cm := CMap{PID: pid, EID: eid, Fmt: fmtNo, M: [][2]int{}}
+			lo := rr.Range(1, 230)
+			for c := lo; c < lo+rr.Range(1, 40) && c < 256; c++ {
+				if rr.Chance(2, 3) {
+					cm.M = append(cm.M, [2]int{c, rr.Range(1, o.n-1)})
+				}
+			}
+			return cm
+		}
+		var extra CMap
+		label := ""
+		oracleOnly := false
+		switch i % 8 {
+		case 0:
+			extra, label = ascii(6, 0, 3), "cmap:format6"
+		case 1:
+			extra, label = ascii(6, 1, 0), "cmap:format6-mac"
+		case 2:
+			extra, label = ascii(4, 1, 0), "cmap:format4-mac"
+		case 3:
+			extra, label, oracleOnly = ascii(0, 1, 0), "cmap:format0-mac", true
+		case 4:
+			extra, label, oracleOnly = ascii(0, 0, 3), "cmap:format0", true
+		case 5:
+			extra, label, oracleOnly = CMap{PID: 0, EID: 5, Fmt: []int{2, 8, 10, 13, 14}[rr.Intn(5)], M: [][2]int{}}, "cmap:undecodable-format", true
+		case 6:
+			extra, label = ascii(12, 1, 0), "cmap:format12-mac"
+		case 7:
+			// format 6 with the largest code and a gap
+			extra, label = CMap{PID: 3, EID: 1, Fmt: 6, M: [][2]int{{0xFFF0, 1}, {0xFFF3, o.n - 1}, {0xFFFF, 1}}}, "cmap:format6-top"
+		}
+		var cms []CMap
+		for _, c := range d.CMaps {
+			if c.PID != extra.PID || c.EID != extra.EID {
+				cms = append(cms, c)
+			}
+		}
+		cms = append(cms, extra)
+		sort.Slice(cms, func(a, b int) bool {
+			if cms[a].PID != cms[b].PID {
+				return cms[a].PID < cms[b].PID
+			}
+			return cms[a].EID < cms[b].EID
+		})
+		d.CMaps = cms
+		if oracleOnly {
+			oneOracleOnly(run, "font", d, gl, "cmap-kinds", label, "kind:"+o.kind)
+		} else {
+			one(run, "font", d, gl, genOrc(rr), "cmap-kinds", label, "kind:"+o.kind)
 		}
 	}
 
@@ -465,7 +697,7 @@ func Gen(run *vlib.Run, seed uint64, tier string) {
 			default: // b a b -> c
 				sets[b] = append(sets[b], Lig{In: []int{a, b}, Out: c})
 			}
-			if kind == "glyf" && rr.Chance(2, 3) {
+			if kind == "glyf" && d.Glyphs[a].O != 0 && rr.Chance(2, 3) {
 				d.Glyphs[a].Comps = append(d.Glyphs[a].Comps, b) // nested along the chain: no cycle
 			}
 		}
@@ -563,6 +795,293 @@ func dedupKeepOrder(xs []int) []int {
 		if !seen[x] {
 			seen[x] = true
 			out = append(out, x)
+		}
+	}
+	return out
+}
+
+// ---- blank glyphs in every role ----
+
+// blankFont builds a TrueType font whose composites use blank glyphs (nil
+// *glyf.Glyph) as first / middle / last / only component, shared between
+// composites and reachable only through nested composites, with blank glyphs
+// next to glyph 0 and at the end of the glyph list.  It returns the font and
+// glyph lists that select the composites with and without their blank
+// components.
+func blankFont(r *vlib.Rand) (d *Desc, lists [][]int, listLabels []string) {
+	n := r.Range(8, 16)
+	d = genFont(r, &genOpts{kind: "glyf", n: n, dense: r.Bool()})
+	for i := range d.Glyphs {
+		d.Glyphs[i].Comps = nil
+		if d.Glyphs[i].O == 0 {
+			d.Glyphs[i].O = 40000 + i
+		}
+	}
+	if r.Bool() {
+		d.NoGsub, d.Gsub = true, nil // the composites alone decide what is appended
+	}
+	ids := perm(r, n-1)
+	for i := range ids {
+		ids[i]++
+	}
+	isBlank := map[int]bool{}
+	if r.Bool() {
+		isBlank[1] = true
+	}
+	if r.Bool() {
+		isBlank[n-1] = true
+	}
+	if r.Chance(1, 8) {
+		isBlank[0] = true
+	}
+	for _, g := range ids[:r.Range(1, 3)] {
+		isBlank[g] = true
+	}
+	var blanks, rest []int
+	for g := 0; g < n; g++ {
+		if isBlank[g] {
+			blanks = append(blanks, g)
+		} else if g != 0 {
+			rest = append(rest, g)
+		}
+	}
+	for i := len(rest) - 1; i > 0; i-- {
+		j := r.Intn(i + 1)
+		rest[i], rest[j] = rest[j], rest[i]
+	}
+	for _, b := range blanks {
+		d.Glyphs[b].O = 0
+		switch r.Intn(4) {
+		case 0:
+			d.Glyphs[b].W = 0
+		case 1:
+			d.Glyphs[b].W = d.Glyphs[0].W // the same metrics as .notdef
+		}
+	}
+	take := func() int {
+		if len(rest) == 0 {
+			return -1
+		}
+		g := rest[0]
+		rest = rest[1:]
+		return g
+	}
+	nInner := r.Range(1, 3)
+	var inner, outer []int
+	for i := 0; i < nInner; i++ {
+		if g := take(); g >= 0 {
+			inner = append(inner, g)
+		}
+	}
+	for i := r.Intn(3); i > 0; i-- {
+		if len(rest) > 2 {
+			outer = append(outer, take())
+		}
+	}
+	simple := append([]int{0}, rest...) // what is left has an outline of its own (glyph 0 may be blank)
+	pickSimple := func() int { return simple[r.Intn(len(simple))] }
+	shared := blanks[r.Intn(len(blanks))]
+	pickBlank := func() int {
+		if r.Chance(2, 3) {
+			return shared
+		}
+		return blanks[r.Intn(len(blanks))]
+	}
+	for _, c := range inner {
+		b := pickBlank()
+		switch r.Intn(6) {
+		case 0:
+			d.Glyphs[c].Comps = []int{b}
+		case 1:
+			d.Glyphs[c].Comps = []int{b, pickSimple(), pickSimple()}
+		case 2:
+			d.Glyphs[c].Comps = []int{pickSimple(), b, pickSimple()}
+		case 3:
+			d.Glyphs[c].Comps = []int{pickSimple(), pickSimple(), b}
+		case 4:
+			d.Glyphs[c].Comps = []int{b, pickSimple(), blanks[r.Intn(len(blanks))]}
+		default:
+			d.Glyphs[c].Comps = []int{pickSimple(), b, b}
+		}
+	}
+	for i, c := range outer {
+		in := inner[r.Intn(len(inner))]
+		switch r.Intn(4) {
+		case 0:
+			d.Glyphs[c].Comps = []int{in}
+		case 1:
+			d.Glyphs[c].Comps = []int{pickSimple(), in}
+		case 2:
+			d.Glyphs[c].Comps = []int{in, inner[r.Intn(len(inner))]}
+		default:
+			if i > 0 {
+				d.Glyphs[c].Comps = []int{outer[i-1]} // three levels
+			} else {
+				d.Glyphs[c].Comps = []int{in, pickSimple()}
+			}
+		}
+	}
+	distinctBlanks(r, d)
+
+	shuffled := func(xs []int) []int {
+		out := append([]int{}, xs...)
+		for i := len(out) - 1; i > 0; i-- {
+			j := r.Intn(i + 1)
+			out[i], out[j] = out[j], out[i]
+		}
+		return out
+	}
+	noZero := func(xs []int) []int {
+		var out []int
+		for _, x := range xs {
+			if x != 0 {
+				out = append(out, x)
+			}
+		}
+		return out
+	}
+	add := func(l []int, label string) {
+		lists = append(lists, dedupKeepOrder(append([]int{0}, l...)))
+		listLabels = append(listLabels, label)
+	}
+	add(shuffled(inner), "list:composites-without-their-blank-components")
+	if len(outer) > 0 {
+		add(shuffled(outer), "list:outer-composites-only")
+		add([]int{outer[len(outer)-1]}, "list:one-outer-composite")
+	}
+	add(append(shuffled(noZero(blanks)), shuffled(append(append([]int{}, inner...), outer...))...), "list:blanks-then-composites")
+	add(append(shuffled(append(append([]int{}, inner...), outer...)), shuffled(noZero(blanks))...), "list:composites-then-blanks")
+	add(noZero(blanks), "list:blanks-only")
+	all := make([]int, 0, n)
+	for g := n - 1; g > 0; g-- {
+		all = append(all, g)
+	}
+	add(all, "list:all-reversed")
+	add(genList(r, n)[1:], "list:random")
+	return d, lists, listLabels
+}
+
+// roleLabels describes which roles blank glyphs (and which kinds of component
+// records) play in the case, for the distribution shown in the evidence.
+func roleLabels(d *Desc, glyphs []int) []string {
+	n := len(d.Glyphs)
+	var out []string
+	add := func(s string) {
+		for _, x := range out {
+			if x == s {
+				return
+			}
+		}
+		out = append(out, s)
+	}
+	if d.Reread {
+		add("font:written-and-reread")
+	} else {
+		add("font:in-memory")
+	}
+	anyBlank := false
+	for i, g := range d.Glyphs {
+		if g.O == 0 && len(g.Comps) == 0 {
+			anyBlank = true
+			if i == 0 {
+				add("blank:glyph0")
+			}
+			if i == 1 {
+				add("blank:after-glyph0")
+			}
+			if i == n-1 && i > 0 {
+				add("blank:last-glyph")
+			}
+		}
+	}
+	if !anyBlank {
+		return out
+	}
+	isBlank := func(g int) bool { return g >= 0 && g < n && d.Glyphs[g].O == 0 && len(d.Glyphs[g].Comps) == 0 }
+	listed := map[int]bool{}
+	for _, g := range glyphs {
+		listed[g] = true
+		if isBlank(g) {
+			add("blank:listed")
+			if d.Kind != "glyf" {
+				add("blank:empty-charstring-listed")
+			}
+		}
+	}
+	if d.Kind != "glyf" {
+		add("blank:empty-charstring")
+		return out
+	}
+	// composite closure of the list (rule outputs aside)
+	depth := map[int]int{}
+	var order []int
+	for _, g := range glyphs {
+		if g >= 0 && g < n {
+			if _, ok := depth[g]; !ok {
+				depth[g] = 0
+				order = append(order, g)
+			}
+		}
+	}
+	users := map[int]int{}
+	for i := 0; i < len(order); i++ {
+		g := order[i]
+		cc := d.Glyphs[g].Comps
+		for k, c := range cc {
+			if c < 0 || c >= n {
+				continue
+			}
+			if isBlank(c) {
+				users[c]++
+				switch {
+				case len(cc) == 1:
+					add("blank:only-component")
+				case k == 0:
+					add("blank:first-component")
+				case k == len(cc)-1:
+					add("blank:last-component")
+				default:
+					add("blank:middle-component")
+				}
+				if compUseMyMetrics(d.Glyphs[g].O, k) {
+					add("blank:component-with-USE_MY_METRICS")
+				}
+				if !listed[c] {
+					add("blank:component-not-listed")
+					if depth[g] >= 1 {
+						add("blank:component-of-unlisted-nested-composite")
+					}
+				}
+			}
+			if _, ok := depth[c]; !ok {
+				depth[c] = depth[g] + 1
+				order = append(order, c)
+			}
+		}
+		if len(cc) > 0 {
+			o := d.Glyphs[g].O
+			if compInstructions(o) != nil {
+				add("composite:instructions")
+			}
+			for k := range cc {
+				fl, _ := compEncoding(o, k, len(cc))
+				switch {
+				case fl&0x0008 != 0:
+					add("composite:scale")
+				case fl&0x0040 != 0:
+					add("composite:xy-scale")
+				case fl&0x0080 != 0:
+					add("composite:2x2")
+				}
+				if fl&0x0002 == 0 {
+					add("composite:point-arguments")
+				}
+			}
+		}
+	}
+	for _, k := range users {
+		if k >= 2 {
+			add("blank:shared-between-composites")
 		}
 	}
 	return out
